@@ -1,4 +1,5 @@
 import Dashu.Model.Text.Parse
+import Dashu.Gen.TextLow
 /-
   C07 — the fixed-size buffers of the integer printers and parsers as *bounded* arrays
   (core Lean only).  `Fmt.lean` / `Parse.lean` model these buffers as unbounded lists; here every
@@ -38,8 +39,9 @@ def maxWordDigits (W : Nat) : Nat := (maxExpInWord W 3).1 + 1
 /-- `radix::MAX_DWORD_DIGITS_NON_POW_2` -/
 def maxDwordDigits (W : Nat) : Nat := (maxExpInDword W 3).1 + 1
 
-/-- `DigitWriter::BUFFER_LEN = round_up(32, WORD_BYTES)` -/
-def digitWriterLen (W : Nat) : Nat := ceilDiv 32 (W / 8) * (W / 8)
+/-- `DigitWriter::BUFFER_LEN = round_up(BUFFER_LEN_MIN, WORD_BYTES)`; `BUFFER_LEN_MIN` (32) is regenerated from
+    fmt/digit_writer.rs on every run (Tie A) -/
+def digitWriterLen (W : Nat) : Nat := ceilDiv Dashu.Gen.digit_writer_BUFFER_LEN_MIN (W / 8) * (W / 8)
 
 -- ---------------------------------------------------------------- non-power-of-two printer
 
